@@ -193,6 +193,7 @@ func (c *Ctx) pickEdit(r *Rng, h *history, deletes bool) *editOp {
 }
 
 func checkEdits(c *Ctx, deletes bool) {
+	bigDeletionRoundTrip(c)
 	r := c.Rng
 	if deletes {
 		c.Ev.Coverage.Rule = "random documents (unique keys per object), then histories of 1..25 operations mixing Object/Array DeleteElems (random / all / first / last / adjacent-run / none selections, with and without key filter, nil callback), SetNull on containers and Set* replacements; after EACH operation: the real tape and string buffer are compared word for word with the modelled operation applied to the same state; the callbacks made are compared; the model's denotation is compared with the abstract deletion on documents (instance of the refinement theorem); and all read paths (Advance, AdvanceIter, ForEach, NextElementBytes, Interface/Map) are compared with each other and with the model on the edited tape. non-trivial = history with at least one successful deletion; distinct = by (document, operation list)"
